@@ -1990,7 +1990,9 @@ pub(super) fn generate_method_definitions(
             #ret_buffer
             let mut serializer = Serializer {
                 writer: &mut __savefile_internal_data,
-                file_version: #version,
+                // The return value must be serialized using the version negotiated with the
+                // caller (which is what the caller uses to deserialize it).
+                file_version: effective_version,
             };
 
             #return_ser_temp
